@@ -119,6 +119,7 @@ type JEntry struct {
 	Writes     []RowWrite // for COMMIT (and XA COMMIT, auto-commit statements): what became durable
 	StmtWrites []RowWrite // rows changed by this statement as seen by its transaction
 	InTxn      bool       // connection was inside a transaction after this entry
+	Notes      []string   // e.g. "dup-on-other-row" (INSERT ... ON DUPLICATE KEY UPDATE)
 }
 
 type RowWrite struct {
